@@ -15,8 +15,11 @@ PathLit == MapV(<< <<StrV(PathCode), ListV(<<Sa>>)>> >>)            \* the liter
 PathLit2 == MapV(<< <<StrV(PathCode \o <<Dot>> \o C("length")), ListV(<<Sa, I(0)>>)>>, <<Sb, I(1)>> >>)
 DP == V("dpath", 0, <<PathT(<<Coerce(Sa), Coerce(I(0))>>, TRUE, "none", "none")>>)
 DPm == V("dpath", 0, <<PathT(<<Coerce(Sa), Part("list", Null, Null, Null, None)>>, FALSE, "length", "first")>>)
+PathLit3 == MapV(<< <<StrV(PathCode), MapV(<< <<StrV(PathCode), I(1)>> >>)>> >>)     \* {"path": {"path": 1}}
+PathLit4 == MapV(<< <<Sa, MapV(<< <<StrV(PathCode), ListV(<<I(1)>>)>> >>)>> >>)        \* {"a": {"path": [1]}}
+PathLit5 == ListV(<<PathLit, MapV(<< <<Sb, PathLit>> >>)>>)                           \* [{"path": ["a"]}, {"b": {"path": ["a"]}}]
 Vals1 == <<I(1), Sa, V("float", 12, <<>>), BoolV(TRUE), None, ListV(<<I(1), Sa>>), MapV(<< <<Sa, I(1)>> >>),
-           PathLit, PathLit2, DP, DPm, ListV(<<DP, I(7)>>), MapV(<< <<Sa, DPm>> >>)>>
+           PathLit, PathLit2, PathLit3, PathLit4, PathLit5, DP, DPm, ListV(<<DP, I(7)>>), MapV(<< <<Sa, DPm>> >>)>>
 Types1 == <<TypeV(TInt), TypeV(TStr), TypeV(TDict)>>
 TypeLists == <<ListV(<<TypeV(TInt)>>), ListV(<<TypeV(TInt), TypeV(TStr)>>), ListV(<<TypeV(TBool), TypeV(TList), TypeV(TFloat)>>)>>
 Keys1 == <<Sa, Sb, I(1)>>
